@@ -1,8 +1,11 @@
 // ===== unit uper: trusted wrappers for std functions without a vstd specification =====
 
-/// R22: `C::DEFAULT_VALUE.to_owned()`
+/// R22: `C::DEFAULT_VALUE.to_owned()`: the owned DEFAULT value of the component (a constant of the constraint)
+pub uninterp spec fn default_owned<C: default::Constraint>() -> C::Owned;
 #[verifier::external_body]
-pub fn verif_default_value<C: default::Constraint>() -> C::Owned { C::DEFAULT_VALUE.to_owned() }
+pub fn verif_default_value<C: default::Constraint>() -> (r: C::Owned)
+    ensures r == default_owned::<C>()
+{ C::DEFAULT_VALUE.to_owned() }
 
 /// Result::and_then (std definition)
 pub assume_specification<T, E, U, F: FnOnce(T) -> Result<U, E>>[ Result::<T, E>::and_then ](r: Result<T, E>, f: F) -> (o: Result<U, E>)
@@ -101,6 +104,29 @@ pub proof fn lemma_rt_desc_option<V>(enc: spec_fn(V) -> Seq<bool>, dec: spec_fn(
     }
 }
 
+/// DEFAULT on its own (x_enc / x_dec of `impl for DefaultValue<T, C>`), for ANY element codec that round trips on the values that are
+/// transmitted, given the law of the generated constant: a value that does not differ from the DEFAULT (`ne` false) IS the owned default
+pub proof fn lemma_rt_desc_default<V>(enc: spec_fn(V) -> Seq<bool>, dec: spec_fn(Seq<u8>, int, int) -> Option<(V, int)>, ne: spec_fn(V) -> bool, dflt: V, v: V)
+    requires ne(v) ==> rt_at(enc, dec, v), !ne(v) ==> v == dflt
+    ensures rt_at(
+        |x: V| if ne(x) { seq![true] + enc(x) } else { seq![false] },
+        |bytes: Seq<u8>, pos: int, limit: int| if pos >= limit { None } else if bit_at(bytes, pos) { dec(bytes, pos + 1, limit) } else { Some((dflt, pos + 1)) },
+        v)
+{
+    let denc = |x: V| if ne(x) { seq![true] + enc(x) } else { seq![false] };
+    let ddec = |bytes: Seq<u8>, pos: int, limit: int| if pos >= limit { None } else if bit_at(bytes, pos) { dec(bytes, pos + 1, limit) } else { Some((dflt, pos + 1)) };
+    assert forall|bytes: Seq<u8>, pos: int, limit: int| 0 <= pos && starts_with(bytes, pos, denc(v)) && pos + denc(v).len() <= limit
+        implies #[trigger] ddec(bytes, pos, limit) == Some((v, pos + denc(v).len())) by {
+        if ne(v) {
+            lemma_starts_with_split(bytes, pos, seq![true], enc(v));
+            assert(bit_at(bytes, pos + 0) == seq![true][0]);
+            assert(starts_with(bytes, pos + 1, enc(v)));
+        } else {
+            assert(bit_at(bytes, pos + 0) == seq![false][0]);
+        }
+    }
+}
+
 /// ENUMERATED (x_enc / x_dec of descriptor Enumerated<C>) given the law of the generated type: e_from(e_index(v)) == Some(v)
 pub proof fn lemma_rt_desc_enumerated<V>(e_index: spec_fn(V) -> u64, e_from: spec_fn(u64) -> Option<V>, std_variants: u64, extensible: bool, v: V)
     requires e_from(e_index(v)) == Some(v), std_variants >= 1, extensible || e_index(v) < std_variants
@@ -135,69 +161,101 @@ pub proof fn lemma_rt_desc_integer<V>(n_i64: spec_fn(V) -> i64, n_from: spec_fn(
     }
 }
 
-/// stand-ins for the macro-generated `impl Number for $T` (impl_number!): the conversions themselves are NOT specified
-/// (uninterpreted spec functions, external bodies); the methods of unit uper are verified for an arbitrary `T: Number`
+/// stand-ins for the macro-generated `impl Number for $T` (`impl_number!` in src/descriptor/numbers.rs: a macro_rules body cannot carry a
+/// contract). The two bodies are the macro's bodies with $T substituted; `@expect` in uper.spec checks on every run that the macro still
+/// reads `self as i64` / `value as $T` and is invoked for exactly these eight types. The conversions are Rust `as` casts (verified, not assumed).
 impl numbers::Number for u8 {
-    uninterp spec fn n_i64(self) -> i64;
-    uninterp spec fn n_from(v: i64) -> u8;
-    #[verifier::external_body]
+    open spec fn n_i64(self) -> i64 { self as i64 }
+    open spec fn n_from(v: i64) -> u8 { v as u8 }
     fn to_i64(self) -> (r: i64) { self as i64 }
-    #[verifier::external_body]
     fn from_i64(value: i64) -> (r: Self) { value as u8 }
 }
 impl numbers::Number for u16 {
-    uninterp spec fn n_i64(self) -> i64;
-    uninterp spec fn n_from(v: i64) -> u16;
-    #[verifier::external_body]
+    open spec fn n_i64(self) -> i64 { self as i64 }
+    open spec fn n_from(v: i64) -> u16 { v as u16 }
     fn to_i64(self) -> (r: i64) { self as i64 }
-    #[verifier::external_body]
     fn from_i64(value: i64) -> (r: Self) { value as u16 }
 }
 impl numbers::Number for u32 {
-    uninterp spec fn n_i64(self) -> i64;
-    uninterp spec fn n_from(v: i64) -> u32;
-    #[verifier::external_body]
+    open spec fn n_i64(self) -> i64 { self as i64 }
+    open spec fn n_from(v: i64) -> u32 { v as u32 }
     fn to_i64(self) -> (r: i64) { self as i64 }
-    #[verifier::external_body]
     fn from_i64(value: i64) -> (r: Self) { value as u32 }
 }
 impl numbers::Number for u64 {
-    uninterp spec fn n_i64(self) -> i64;
-    uninterp spec fn n_from(v: i64) -> u64;
-    #[verifier::external_body]
+    open spec fn n_i64(self) -> i64 { self as i64 }
+    open spec fn n_from(v: i64) -> u64 { v as u64 }
     fn to_i64(self) -> (r: i64) { self as i64 }
-    #[verifier::external_body]
     fn from_i64(value: i64) -> (r: Self) { value as u64 }
 }
 impl numbers::Number for i8 {
-    uninterp spec fn n_i64(self) -> i64;
-    uninterp spec fn n_from(v: i64) -> i8;
-    #[verifier::external_body]
+    open spec fn n_i64(self) -> i64 { self as i64 }
+    open spec fn n_from(v: i64) -> i8 { v as i8 }
     fn to_i64(self) -> (r: i64) { self as i64 }
-    #[verifier::external_body]
     fn from_i64(value: i64) -> (r: Self) { value as i8 }
 }
 impl numbers::Number for i16 {
-    uninterp spec fn n_i64(self) -> i64;
-    uninterp spec fn n_from(v: i64) -> i16;
-    #[verifier::external_body]
+    open spec fn n_i64(self) -> i64 { self as i64 }
+    open spec fn n_from(v: i64) -> i16 { v as i16 }
     fn to_i64(self) -> (r: i64) { self as i64 }
-    #[verifier::external_body]
     fn from_i64(value: i64) -> (r: Self) { value as i16 }
 }
 impl numbers::Number for i32 {
-    uninterp spec fn n_i64(self) -> i64;
-    uninterp spec fn n_from(v: i64) -> i32;
-    #[verifier::external_body]
+    open spec fn n_i64(self) -> i64 { self as i64 }
+    open spec fn n_from(v: i64) -> i32 { v as i32 }
     fn to_i64(self) -> (r: i64) { self as i64 }
-    #[verifier::external_body]
     fn from_i64(value: i64) -> (r: Self) { value as i32 }
 }
 impl numbers::Number for i64 {
-    uninterp spec fn n_i64(self) -> i64;
-    uninterp spec fn n_from(v: i64) -> i64;
-    #[verifier::external_body]
+    open spec fn n_i64(self) -> i64 { self as i64 }
+    open spec fn n_from(v: i64) -> i64 { v as i64 }
     fn to_i64(self) -> (r: i64) { self as i64 }
-    #[verifier::external_body]
     fn from_i64(value: i64) -> (r: Self) { value as i64 }
 }
+
+/// the law of the Number impls that the INTEGER round trip needs: converting to the codec's i64 and back is the identity
+/// (for u64 on the values an i64 can hold -- larger ones are outside every constraint the constants `MIN`/`MAX: Option<i64>` can express)
+pub proof fn lemma_number_law_u8(v: u8) ensures <u8 as numbers::Number>::n_from(numbers::Number::n_i64(v)) == v {}
+pub proof fn lemma_number_law_u16(v: u16) ensures <u16 as numbers::Number>::n_from(numbers::Number::n_i64(v)) == v {}
+pub proof fn lemma_number_law_u32(v: u32) ensures <u32 as numbers::Number>::n_from(numbers::Number::n_i64(v)) == v {}
+pub proof fn lemma_number_law_u64(v: u64) requires v <= i64::MAX as u64 ensures <u64 as numbers::Number>::n_from(numbers::Number::n_i64(v)) == v {}
+pub proof fn lemma_number_law_i8(v: i8) ensures <i8 as numbers::Number>::n_from(numbers::Number::n_i64(v)) == v {}
+pub proof fn lemma_number_law_i16(v: i16) ensures <i16 as numbers::Number>::n_from(numbers::Number::n_i64(v)) == v {}
+pub proof fn lemma_number_law_i32(v: i32) ensures <i32 as numbers::Number>::n_from(numbers::Number::n_i64(v)) == v {}
+pub proof fn lemma_number_law_i64(v: i64) ensures <i64 as numbers::Number>::n_from(numbers::Number::n_i64(v)) == v {}
+
+/// INTEGER with bounds, not extensible: descriptor-level round trip for ANY Number type whose conversion law holds at v
+pub proof fn lemma_rt_integer_descriptor<T: numbers::Number, C: numbers::Constraint<T>>(v: T)
+    requires
+        numbers::Integer::<T, C>::xr_ok(), T::n_from(v.n_i64()) == v,
+        (match C::MIN { Some(x) => x, None => 0i64 }) <= v.n_i64() <= (match C::MAX { Some(x) => x, None => i64::MAX }),
+    ensures rt_at(|x: T| numbers::Integer::<T, C>::x_enc(x), |b: Seq<u8>, p: int, l: int| numbers::Integer::<T, C>::x_dec(b, p, l), v)
+{
+    let lo = match C::MIN { Some(x) => x, None => 0i64 };
+    let hi = match C::MAX { Some(x) => x, None => i64::MAX };
+    assert forall|bytes: Seq<u8>, pos: int, limit: int| 0 <= pos && starts_with(bytes, pos, numbers::Integer::<T, C>::x_enc(v)) && pos + numbers::Integer::<T, C>::x_enc(v).len() <= limit
+        implies #[trigger] numbers::Integer::<T, C>::x_dec(bytes, pos, limit) == Some((v, pos + numbers::Integer::<T, C>::x_enc(v).len())) by {
+        lemma_rt_cwn(bytes, pos, limit, lo as int, hi as int, v.n_i64() as int);
+    }
+}
+
+// ===== canonical order of SET components (X.680 8.6; C16), stated over the generated TAG constants (glue rule G12) =====
+
+/// class rank (UNIVERSAL < APPLICATION < context-specific < PRIVATE), then number
+pub open spec fn tag_rank(t: Tag) -> (int, int) {
+    match t { Tag::Universal(n) => (0int, n as int), Tag::Application(n) => (1int, n as int), Tag::ContextSpecific(n) => (2int, n as int), Tag::Private(n) => (3int, n as int) }
+}
+pub open spec fn tag_lt(a: Tag, b: Tag) -> bool {
+    tag_rank(a).0 < tag_rank(b).0 || (tag_rank(a).0 == tag_rank(b).0 && tag_rank(a).1 < tag_rank(b).1)
+}
+/// the components visited as i-th and (i+1)-th are not in DESCENDING order of their generated TAG constants, unless i is the last root
+/// component (root before additions). Not strict: the generator emits UNIVERSAL 16 as TAG constant of an untagged SET OF component
+/// (walker.rs: `field.tag.unwrap_or(Tag::DEFAULT_SEQUENCE_OF)` for both orderings) while it sorts by the type's real tag (UNIVERSAL 17), so
+/// SEQUENCE OF / SET OF neighbours tie on the constants (observation O-1 in DESIGN.md 12.5; the wire order itself is right)
+pub open spec fn set_pair_ok(ext: Option<u64>, i: int, a: Tag, b: Tag) -> bool {
+    (ext matches Some(e) && i == e) || tag_lt(a, b) || a == b
+}
+
+/// glue rule G13: a fact that tools/glue.py established (or refuted) by comparing the generated text with an `-- @expect` line of the zoo
+/// schema; `holds == false` makes the obligation that carries it unprovable, so the mismatch is reported like every other failed obligation
+pub open spec fn verif_expected(what: &str, holds: bool) -> bool { holds }
